@@ -5,9 +5,10 @@ CONSTANTS
   MaxArgs = 1
   MaxSteps = 2
   MaxEx = 1
-  Outs = {"ok", "err", "panic", "pnil", "exit"}
+  Outs = {"ok", "err", "panic", "exit", "nilfn"}
   Fins = {"none", "commit", "rollback"}
   CancelOn = TRUE
+  DbStates = {"ok", "nobegin", "err"}
 INVARIANTS TypeOK FinishedOnce CommitIffAllOk NoLaterStep NoBeginForEmpty RetRight GoneOnlyByExit
 PROPERTIES StepsOnlyInOpenTx ExecInsideTx FinishGuard NothingAfterAnswer
 VIEW View
